@@ -657,4 +657,163 @@ theorem fitsB_sound : ∀ (segs : List String) (kvs : AMap Node), fitsB kvs segs
     rw [e] at h
     simp [notListB] at h
 
+
+/-! ### frame for removal, every pair of paths that are not prefix-related -/
+
+/-- a write below index groups that already resolve pads nothing: exact frame -/
+theorem walkIdx_setSlot_frame_exact {cur : Option Node} {is js : List Nat} {w : Node} (x : Node)
+    (hw : walkIdx cur is = some w) (h : IdxDiverge is js) :
+    walkIdx (some (setSlot cur is x)) js = walkIdx cur js := by
+  obtain ⟨pre, i, j, is', js', rfl, rfl, hne⟩ := h
+  rw [walkIdx_setSlot_diverge pre cur i j is' js' x (Ne.symm hne)]
+  have hi : i < (listOf (walkIdx cur pre)).length := by
+    rw [walkIdx_append, walkIdx_cons_listOf] at hw
+    rcases Nat.lt_or_ge i (listOf (walkIdx cur pre)).length with hlt | hge
+    · exact hlt
+    · rw [List.getElem?_eq_none hge, walkIdx_none] at hw; cases hw
+  by_cases hj : j < (listOf (walkIdx cur pre)).length
+  · simp [hj]
+  · have hold : walkIdx cur (pre ++ j :: js') = none := by
+      rw [walkIdx_append, walkIdx_cons_listOf, List.getElem?_eq_none (Nat.le_of_not_lt hj), walkIdx_none]
+    have hji : ¬ j < i + 1 := by omega
+    simp [hj, hji, hold]
+
+theorem segIdx_of_noSuffix {p : String} (h : hasIdxSuffix p = false) : segIdx p = [] := by
+  simp [segIdx, parseSeg_of_noSuffix h]
+
+/-- `Remove(name)` deletes the literal key: a name with index groups is no key a component resolves through -/
+theorem child_remove_indexed (kvs : AMap Node) {p : String} (hp : segIdx p ≠ []) (q : String) :
+    child (remove kvs p) q = child kvs q := by
+  have hne : segBase q ≠ p := by
+    intro e
+    apply hp
+    apply segIdx_of_noSuffix
+    rw [← e]
+    exact segBase_noSuffix q
+  rw [child_eq_walk, child_eq_walk]
+  unfold remove
+  rw [AMap.get?_erase_ne _ hne]
+
+theorem IdxDiverge.ne_nil {is js : List Nat} (h : IdxDiverge is js) : is ≠ [] := by
+  obtain ⟨pre, i, j, is', js', rfl, _, _⟩ := h
+  simp
+
+theorem lookupSegs_congr_child {kvs kvs' : AMap Node} {q : String} (h : child kvs' q = child kvs q)
+    (qs : List String) : lookupSegs kvs' (q :: qs) = lookupSegs kvs (q :: qs) := by
+  cases qs with
+  | nil => exact h
+  | cons q' qs => rw [lookupSegs_cons_cons, lookupSegs_cons_cons, h]
+
+theorem walkIdx_cons_some {x : Option Node} {i : Nat} {is : List Nat} {w : Node}
+    (h : walkIdx x (i :: is) = some w) : ∃ xs, x = some (.list xs) := by
+  cases x with
+  | none => simp [walkIdx_none] at h
+  | some n =>
+    cases n with
+    | leaf _ => simp [walkIdx] at h
+    | cont _ => simp [walkIdx] at h
+    | list xs => exact ⟨xs, rfl⟩
+
+/-- Frame for removal: removing `ps` is invisible at every path `qs` whose steps are not
+    prefix-related to it — no side condition, no padding (removal never creates or replaces nodes). -/
+theorem lookupSegs_removeAtSegs_frame_unrelated {ps qs : List String} (h : Unrelated ps qs) :
+    ∀ (kvs : AMap Node), lookupSegs (removeAtSegs kvs ps) qs = lookupSegs kvs qs := by
+  induction h with
+  | @key p q ps qs h => intro kvs; exact lookupSegs_removeAtSegs_frame _ _ kvs (Diverge.head h)
+  | @idx p q ps qs hb hi =>
+    intro kvs
+    apply lookupSegs_congr_child
+    cases ps with
+    | nil => exact child_remove_indexed kvs (IdxDiverge.ne_nil hi) q
+    | cons p' ps =>
+      simp only [removeAtSegs]
+      cases hch : child kvs p with
+      | none => rfl
+      | some n =>
+        cases n with
+        | leaf _ => rfl
+        | list _ => rfl
+        | cont c =>
+          simp only
+          rw [child_add_sameBase _ _ hb, child_eq_walk kvs q, ← hb]
+          exact walkIdx_setSlot_frame_exact _ (by rw [← child_eq_walk]; exact hch) hi
+  | @keyIdx p q ps qs hb he hp =>
+    intro kvs
+    obtain ⟨j, js, he⟩ := he
+    apply lookupSegs_congr_child
+    cases ps with
+    | nil => exact absurd rfl hp
+    | cons p' ps =>
+      simp only [removeAtSegs]
+      cases hch : child kvs p with
+      | none => rfl
+      | some n =>
+        cases n with
+        | leaf _ => rfl
+        | list _ => rfl
+        | cont c =>
+          simp only
+          have hold : child kvs q = none := by
+            rw [child_eq_walk, ← hb, he, walkIdx_append, ← child_eq_walk, hch]
+            rfl
+          rw [hold, child_add_sameBase _ _ hb, he, walkIdx_append, walkIdx_setSlot_self]
+          rfl
+  | @idxKey p q ps qs hb he hq =>
+    intro kvs
+    obtain ⟨i, is, he⟩ := he
+    cases ps with
+    | nil =>
+      apply lookupSegs_congr_child
+      exact child_remove_indexed kvs (by rw [he]; simp) q
+    | cons p' ps =>
+      cases qs with
+      | nil => exact absurd rfl hq
+      | cons q' qs =>
+        simp only [removeAtSegs]
+        cases hch : child kvs p with
+        | none => rfl
+        | some n =>
+          cases n with
+          | leaf _ => rfl
+          | list _ => rfl
+          | cont c =>
+            simp only
+            have hold : kidsOf (child kvs q) = [] := by
+              rw [child_eq_walk, he, walkIdx_append] at hch
+              obtain ⟨xs, hxs⟩ := walkIdx_cons_some hch
+              rw [child_eq_walk, ← hb, hxs]
+              rfl
+            have hnew : kidsOf (child (add kvs p (.cont (removeAtSegs c (p' :: ps)))) q) = [] := by
+              rw [child_add_sameBase _ _ hb, he]
+              obtain ⟨c', hc'⟩ := walkIdx_setSlot_prefix (segIdx q) (AMap.get? kvs (segBase p)) (i :: is)
+                (.cont (removeAtSegs c (p' :: ps)))
+              rw [hc', setSlot_cons]
+              rfl
+            rw [lookupSegs_of_kidsOf_nil hold, lookupSegs_of_kidsOf_nil hnew]
+  | @tail p q ps qs hpq hp hq _ ih =>
+    intro kvs
+    cases ps with
+    | nil => exact absurd rfl hp
+    | cons p' ps =>
+      cases qs with
+      | nil => exact absurd rfl hq
+      | cons q' qs =>
+        simp only [removeAtSegs]
+        cases hch : child kvs p with
+        | none => rfl
+        | some n =>
+          cases n with
+          | leaf _ => rfl
+          | list _ => rfl
+          | cont c =>
+            simp only
+            rw [lookupSegs_cons_cons, lookupSegs_cons_cons, child_add_sameParse _ _ hpq,
+              ← child_congr_parse kvs hpq, hch]
+            exact ih c
+
+theorem lookupSegs_removeAtSegs_frame_steps (kvs : AMap Node) (ps qs : List String)
+    (h1 : ¬ pathSteps ps <+: pathSteps qs) (h2 : ¬ pathSteps qs <+: pathSteps ps) :
+    lookupSegs (removeAtSegs kvs ps) qs = lookupSegs kvs qs :=
+  lookupSegs_removeAtSegs_frame_unrelated (unrelated_of_steps ps qs h1 h2) kvs
+
 end Ytk
